@@ -45,9 +45,12 @@ def real_env(key):
                  'warn': world.warn_stub}}
     extra = ENVS[key]()
     if key == 'sampler':
+        from . import realh5
         env['sampler'] = {'NautilusBound': stubs.StubNautilusBound,
                           'time': world.time_stub,
-                          'get_terminal_size': world.get_terminal_size_stub}
+                          'get_terminal_size': world.get_terminal_size_stub,
+                          'h5py': realh5.h5py, 'Path': realh5.Path,
+                          'os': realh5.os_mod}
     elif key == 'bounds':
         env.update(extra)
         env['union'] = dict(extra['union'])
